@@ -126,6 +126,70 @@ theorem split_clean_in_unsplit_order (hL : Fuel.LoadedShape R') (hpos : Bridge.A
     exact IncludeNoAug.canonErrs_nil
 
 end Split2
+section NLwrap
+open Goyang.Lemmas.AugmentLoop Goyang.Lemmas.AugmentReport Goyang.Lemmas.AugmentModel Goyang.Lemmas.Bridge Goyang.Lemmas.AugmentStep
+/-- With one row per key, a row of the pending table is what `pendingOf` answers for its key. -/
+theorem pendingOf_of_mem (s : PState) (hk : (keys s).Nodup) {p : Nat × List Entry} (hp : p ∈ s.pending) :
+    s.pendingOf p.1 = p.2 := by
+  unfold PState.pendingOf
+  have : s.pending.find? (·.1 == p.1) = some p := by
+    unfold keys at hk
+    generalize s.pending = l at hk hp
+    induction l with
+    | nil => cases hp
+    | cons q qs ih =>
+      rw [List.map_cons, List.nodup_cons] at hk
+      rcases List.mem_cons.1 hp with rfl | hq
+      · simp
+      · have hne : (q.1 == p.1) = false := by
+          rw [beq_eq_false_iff_ne]
+          intro e
+          exact hk.1 (e ▸ List.mem_map_of_mem (f := fun x : Nat × List Entry => x.1) hq)
+        rw [List.find?_cons, hne]
+        exact ih hk.2 hq
+  rw [this]; rfl
+
+section NL
+variable {s : Split} {R R' : Registry} (opts : Opts) (plug plug' : Plug) (h : IsSplitOf s R R' plug plug')
+
+include h in
+/-- The loop over the split set leaves nothing pending when the run in the module order of the unsplit set
+records no error and leaves nothing pending. -/
+theorem noLeftover_split (hL : Fuel.LoadedShape R') (hpos : AugPosDistinct R') (hplain : AugArgsPlain R')
+    (h2 : forestErrs (forest0 R' opts plug') = [])
+    (hcu : allErrs (loopU R R' opts plug').forest = []) (hpu : ∀ id, (loopU R R' opts plug').pendingOf id = []) :
+    NoLeftover R' opts plug' := by
+  have hall := (split_loop_clean_iff opts plug plug' h hL hpos hplain h2).2 hcu
+  have hfree : ∀ er, FVisErr (afterLoop R' opts plug').2.forest er → er.cls ≠ "duplicate-node" := by
+    intro er hv
+    have := fVisErr_allErrs hv
+    rw [hall] at this
+    cases this
+  obtain ⟨_, hpend⟩ := split_loop_in_unsplit_order opts plug plug' h hL hpos hplain hfree
+  have hin := phaseInput_pstate0 R' opts plug' hL hpos hplain
+  have hkeys : (keys (afterLoop R' opts plug').2).Nodup := by
+    have e : afterLoop R' opts plug' =
+        augmentLoop R' (loopFuel R' opts plug') ((augOrder R').map (·.seq)).toArray (pstate0 R' opts plug') := rfl
+    rw [e, Goyang.Props.C07.model_loop_eq R' _ _ _ hin.plain]
+    obtain ⟨_, _, _, _, hk, _⟩ := loop_spec (Res.ofReg R') (pstate0 R' opts plug').forest (loopFuel R' opts plug')
+      ((augOrder R').map (·.seq)).toArray (pstate0 R' opts plug') [] (FLe.refl _) hin.nodup (cover_pstate0 R' opts plug')
+    show (keys (augmentLoopR (Res.ofReg R') (loopFuel R' opts plug') ((augOrder R').map (·.seq)).toArray
+      (pstate0 R' opts plug') []).2.1).Nodup
+    rw [hk]
+    exact hin.keys
+  intro p hp
+  have e1 := pendingOf_of_mem _ hkeys hp
+  apply List.eq_nil_iff_forall_not_mem.2
+  intro a ha
+  have : a ∈ (afterLoop R' opts plug').2.pendingOf p.1 := by rw [e1]; exact ha
+  have := (hpend p.1 a).2 this
+  have hh : a ∈ (loopU R R' opts plug').pendingOf p.1 := this
+  rw [hpu p.1] at hh
+  cases hh
+
+end NL
+end NLwrap
+
 /-- No deviation statement in the unsplit set: none in the split set (they stay with the owner). -/
 theorem dev_split {s : Split} {R R' : Registry} {plug plug' : Plug} (h : IsSplitOf s R R' plug plug')
     (hdev : ∀ x ∈ R.mods, x.stmt.all "deviation" = []) : ∀ x ∈ R'.mods, x.stmt.all "deviation" = [] := by
@@ -146,17 +210,16 @@ variable {s : Split} {R R' : Registry} (opts : Opts) (plug plug' : Plug) (h : Is
 
 /-- What the pieces (A) and (S) (and the bookkeeping of rpc inputs / outputs) have to deliver about the two
 augment loops run in the SAME module order (that of the unsplit set): the loop over the split set records no
-error, and the owner's tree is the unsplit module's up to `SameTop σ`; `ts` is the owner's tree after the
+error and leaves nothing pending, and the owner's tree is the unsplit module's up to `SameTop σ`; `ts` is the owner's tree after the
 split set's loop in its own order. -/
 def LoopsRelated (s : Split) (R R' : Registry) (opts : Opts) (plug plug' : Plug) : Prop :=
-  AugmentReport.allErrs (loopU R R' opts plug').forest = [] ∧
+  AugmentReport.allErrs (loopU R R' opts plug').forest = [] ∧ (∀ id, (loopU R R' opts plug').pendingOf id = []) ∧
   ∃ t ts tu, (afterLoop R opts plug).2.forest.tree? s.m.seq = some t ∧
     (afterLoop R' opts plug').2.forest.tree? s.m.seq = some ts ∧ (loopU R R' opts plug').forest.tree? s.m.seq = some tu ∧
     SameTop s.σ tu t ∧ IOShape ts ∧ IOShape tu ∧ SameIO ts tu
 
 include h in
 theorem eq_inline_of_loopsRelated (hL : Fuel.LoadedShape R') (hpos : Bridge.AugPosDistinct R') (hplain : Bridge.AugArgsPlain R')
-    (hn' : NoLeftover R' opts plug')
     (hdev : ∀ x ∈ R.mods, x.stmt.all "deviation" = []) (hn : NoLeftover R opts plug)
     (hclean : (processAll R opts plug).errors = []) (hS : LoopsRelated s R R' opts plug plug') :
     (processAll R' opts plug').errors = [] ∧ dumpOf (processAll R' opts plug') s.owner = dumpOf (processAll R opts plug) s.m := by
@@ -164,7 +227,8 @@ theorem eq_inline_of_loopsRelated (hL : Fuel.LoadedShape R') (hpos : Bridge.AugP
   obtain ⟨a1, a2⟩ := IncludeNoAug.processAll_clean_stages R opts plug hclean
   obtain ⟨hlink, b1⟩ := stage1_split plug plug' h a1
   have b2 := (conv_split opts plug plug' h hlink a2).1
-  obtain ⟨hcu, t, ts, tu, ht, hts, htu, hst, hss, hsu, hio⟩ := hS
+  obtain ⟨hcu, hpu, t, ts, tu, ht, hts, htu, hst, hss, hsu, hio⟩ := hS
+  have hn' : NoLeftover R' opts plug' := noLeftover_split opts plug plug' h hL hpos hplain b2 hcu hpu
   have hclean' : (processAll R' opts plug').errors = [] :=
     (split_clean_in_unsplit_order opts plug plug' h hL hpos hplain b1 b2 hdev' hn').2 hcu
   refine ⟨hclean', ?_⟩
